@@ -8,20 +8,51 @@ import runner
 LAST_MODEL = {}
 
 
-def merkle_mutations(n):
-    """Lists over 1..n with the same merkle root as 1..n (Bitcoin duplicates the last node of an odd level)."""
-    out = set()
-    # spans[i] = (first leaf, last leaf) covered by node i of the current level
-    level = [(i, i) for i in range(1, n + 1)]
+def _root(m):
+    level = [("leaf", x) for x in m]
+    while len(level) > 1:
+        if len(level) % 2 == 1:
+            level = level + [level[-1]]
+        level = [("node", level[i], level[i + 1]) for i in range(0, len(level), 2)]
+    return level[0]
+
+
+def _level_dups(m):
+    """Repeat the leaves under the last node of every odd level of m's merkle tree."""
+    out = []
+    level = [(i, i) for i in range(len(m))]
     while len(level) > 1:
         if len(level) % 2 == 1:
             a, b = level[-1]
-            # repeating the leaves under the last node gives the same root
-            m = list(range(1, n + 1)) + list(range(a, b + 1))
-            out.add(tuple(m))
+            out.append(list(m) + list(m[a:b + 1]))
             level = level + [level[-1]]
         level = [(level[i][0], max(level[i][1], level[i + 1][1])) for i in range(0, len(level), 2)]
-    return [list(x) for x in sorted(out)]
+    return out
+
+
+def merkle_mutations(n, max_len=None):
+    """Lists over 1..n, different from 1..n, with the same merkle root (Bitcoin duplicates the last node of
+    an odd level): the closure of 1..n under repeating the span of the last node of an odd level, padding an
+    odd list with its last element and dropping one of two equal trailing elements.  Every member is
+    re-checked against the root of 1..n on the free-constructor abstraction."""
+    ident = list(range(1, n + 1))
+    max_len = max_len or 2 * n + 2
+    want = _root(ident)
+    seen = {tuple(ident)}
+    todo = [ident]
+    while todo:
+        m = todo.pop()
+        cands = _level_dups(m)
+        if len(m) % 2 == 1:
+            cands.append(m + [m[-1]])
+        if len(m) >= 2 and m[-1] == m[-2]:
+            cands.append(m[:-1])
+        for c in cands:
+            if len(c) <= max_len and tuple(c) not in seen and _root(c) == want:
+                seen.add(tuple(c))
+                todo.append(c)
+    seen.discard(tuple(ident))
+    return [list(x) for x in sorted(seen)]
 
 
 def inputs(tier, seed):
